@@ -21,7 +21,7 @@ RULE = ("scripts = 2..4 scripted modules on a ring (gate out -> next module, gat
         "{timer deadline at that instant} x {restart delay} x {gate}.  non-trivial = distinct script whose run resets a module and hits >= 3 "
         "targeted mechanisms")
 TRUSTED = ["user code is a script language: log / send_in(out|far) / schedule_in / sleep (tasks) / shutdown / shutdow_and_restart_in / panic / "
-           "quiet / set_stereotyp / schedule_at, send_at and shutdow_and_restart_at with a past time stamp (library-raised panics); tasks are spawned by at_sim_start(0) only (tokio::spawn, handle given to join or try_join as the script "
+           "quiet / set_stereotyp / schedule_at, send_at and shutdow_and_restart_at with a past time stamp (library-raised panics) / reads of a module's property and panics under its lock; tasks are spawned by at_sim_start(0) only (tokio::spawn, handle given to join or try_join as the script "
            "says; spawn and task end are logged by the scripted code), one timer per task at a time",
            "the event set is the two-list specification that C01 proves the calendar queue refines",
            "tokio is modelled as: woken and freshly spawned tasks are polled once each, FIFO, by the yield inside Harness::exec; dropping "
@@ -295,6 +295,8 @@ def monitor(script, out):
         check_lifecycle(d, b)
     except (ValueError, Bad) as e:
         return str(e)
+    except (IndexError, KeyError, TypeError) as e:
+        return "malformed log (%s: %s)" % (type(e).__name__, e)
     return None
 
 
@@ -304,7 +306,7 @@ def mechanisms(script, out):
         a, b, v = records3(out)
         d = decode(script)
         run, inc = check_lifecycle(d, a)
-    except (ValueError, Bad):
+    except (ValueError, Bad, IndexError, KeyError, TypeError):
         return ms
     k = run.k
     if sum(1 for x in inc if x) >= 1:
